@@ -1,0 +1,16 @@
+//go:build !verif
+
+package hashgraph
+
+// No-op twins of the simulation hooks (see zz_sim_verif.go). They compile to
+// nothing when the "verif" build tag is off.
+
+func simEventBody(b *EventBody) {}
+
+func simOrderSigs(sigs []BlockSignature) {}
+
+func simProcessSigPool(h *Hashgraph) (bool, error) { return false, nil }
+
+func simUpdateAncestors(h *Hashgraph, event *Event) (bool, error) { return false, nil }
+
+func simStorePoint(s *BadgerStore, kind, phase string) error { return nil }
